@@ -114,7 +114,7 @@ def judge_complete(text, widths, delimiter, part, case=None, via_path=False):
         if not fixedspec.rows_reproduce(text, widths, delimiter, rows):
             part.fail(tag % "rows-do-not-reproduce-input", case, "rows of declared widths whose concatenation with permitted delimiters equals the input, or DataFormatError", rows)
     elif kind == "error":
-        if fixedspec.canonical_well_formed(text, total, delimiter):
+        if fixedspec.well_formed(text, total, delimiter):
             part.fail(tag % "well-formed-input-rejected", case, "accepted", detail)
     else:
         part.fail(tag % kind, case, "rows or DataFormatError", detail)
@@ -163,9 +163,10 @@ def fixpoint(item):
         part.transitions += 1
         case = {"text": prefix, "widths": list(widths), "delimiter": delimiter, "more_input_follows": True}
         if kind == "error":
-            # rejected before the end of input: no continuation may be canonically well-formed
+            # rejected before the end of input: no continuation may be well-formed (fixed delimiters: the unique decomposition,
+            # which the greedy automaton follows; 'any': the canonical form)
             part.validated += 1
-            if canonical[0] != "dead":
+            if (canonical[0] if delimiter == "any" else greedy[0]) != "dead":
                 part.fail("%s|rejected-early-although-a-well-formed-continuation-exists" % delimiter_name(delimiter), case, "keeps reading", snap)
             continue
         if kind != "blocked":
@@ -265,6 +266,6 @@ def run(ctx):
     ctx.rule = ("(1) plain enumeration; (3) every single-character mutation of longer well-formed files; (2) BFS over input prefixes, one character at a time, state = snapshot of the fixed_rows generator frame at the blocked read (call-site lines, "
                 "all locals but message-only ones, push-back, unconsumed characters) x greedy and canonical specification states; every visited prefix is also judged as a complete "
                 "input; oracle: returned rows must have the declared widths and reproduce the input with some permitted delimiters, an error is only allowed if the input is not "
-                "canonically well-formed; non-trivial = every judged input (each is either accepted with rows or rejected)")
+                "well-formed (unique decomposition for fixed delimiters; canonical form under 'any'); non-trivial = every judged input (each is either accepted with rows or rejected)")
     ctx.assumptions = ["ignored frame locals: the Location counters (message-only), the stream objects and loop temporaries that are reassigned before use",
-                       "inputs whose records themselves contain CR/LF may be accepted or rejected, provided returned rows reproduce the input"]
+                       "under the setting 'any' inputs whose records themselves contain CR / LF may be accepted or rejected, provided returned rows reproduce the input (CR LF can be read in two ways); with one fixed delimiter or none the decomposition is unique and every decomposable input must be accepted"]
